@@ -11,9 +11,9 @@ clause that fires on the code is a disagreement with the statement *and* with th
 an artefact of the clause.
 
 Proved here: C01 `denied_noeffect`, `effect_only_if_granted`, `list_exact`; C02 `reads`, `frame` (and
-`reads_total`, `failed_noop` in Properties/C02.lean); C04 `mem_eq_disk`, `savefail_noop`; C06 `before_effect`, `fail_closed`, `unchanged_silent`;
+`reads_total`, `failed_noop` in Properties/C02.lean); C04 `mem_eq_disk`, `savefail_noop`; C06 `recorded`, `before_effect`, `fail_closed`, `unchanged_silent`;
 C09 `cond` (under the store invariant).  Not yet proved of the model: C01 `changes_only_granted`; C02 `inv`, `put`, `bytes_stable`, `active`,
-`delete_version`; C04 `gen_iff_saved`; C06 `recorded`; C18 `acknowledged_bytes_kept`
+`delete_version`; C04 `gen_iff_saved`; C18 `acknowledged_bytes_kept`
 (their content is stated as theorems about the model in the property files, in other words).
 -/
 namespace Setec.MonSound
@@ -172,5 +172,69 @@ theorem c02_frame_sound (kv : KV) (c : Caller) (op : Op) (aok sok : Bool) (h : I
     · right
       have hs := (ExtTreeMap.mem_toList_iff_getElem?_eq_some (t := (step Cfg.std kv c op aok sok).1.secrets) (k := p.1) (v := p.2)).mp hp
       rw [← hf p.1 hm, hs]; exact optSecEq_self p.2
+
+theorem kvErr_ne_denied (er : Err) : kvErr er ≠ .denied := by cases er <;> simp [kvErr]
+theorem kvErr_not_value (er : Err) : (kvErr er).disclosesValue = false := by cases er <;> simp [kvErr, Res.disclosesValue]
+
+theorem exec_ne_denied (kv : KV) (op : Op) (sok : Bool) : (exec kv op sok).2 ≠ .denied := by
+  cases op <;> simp only [exec] <;> (repeat' split) <;> simp_all [kvErr_ne_denied]
+
+theorem c06_recorded_sound (kv : KV) (c : Caller) (op : Op) (aok sok : Bool) :
+    c06_recorded (obsOf kv c op aok sok) = true := by
+  have hs := fun op a s => step_outcome kv c op a s
+  cases op with
+  | list => cases aok <;> simp [c06_recorded, obsOf, step, Cfg.std]
+  | getCond n v =>
+    simp (disch := simp) only [c06_recorded, obsOf, hs, outcome, granted_eq, wellFormed, actionOf, nameOf]
+    by_cases hg : grantedStd c "get" n = true
+    · simp only [hg]
+      cases h1 : KV.get kv n with
+      | error er => simp [kvErr_ne_denied, kvErr_not_value]
+      | ok p =>
+        obtain ⟨b, w⟩ := p
+        by_cases hv : w = v <;> cases aok <;> simp [hv, Res.disclosesValue, entryMatches, entryOf, actionOf, nameOf, versionGiven]
+    · simp [hg, entryMatches, entryOf, actionOf, nameOf, versionGiven]
+  | info n =>
+    simp (disch := simp) only [c06_recorded, obsOf, hs, outcome, granted_eq, wellFormed, actionOf, nameOf]
+    have hd := exec_ne_denied kv (.info n) sok
+    generalize exec kv (.info n) sok = x at *
+    by_cases hg : grantedStd c "info" n = true <;> cases aok <;>
+      simp_all [Res.disclosesValue, entryMatches, entryOf, actionOf, nameOf, versionGiven]
+  | get n =>
+    simp (disch := simp) only [c06_recorded, obsOf, hs, outcome, granted_eq, wellFormed, actionOf, nameOf]
+    have hd := exec_ne_denied kv (.get n) sok
+    generalize exec kv (.get n) sok = x at *
+    by_cases hg : grantedStd c "get" n = true <;> cases aok <;>
+      simp_all [Res.disclosesValue, entryMatches, entryOf, actionOf, nameOf, versionGiven]
+  | getVersion n v =>
+    simp (disch := simp) only [c06_recorded, obsOf, hs, outcome, granted_eq, wellFormed, actionOf, nameOf]
+    have hd := exec_ne_denied kv (.getVersion n v) sok
+    generalize exec kv (.getVersion n v) sok = x at *
+    by_cases hg : grantedStd c "get" n = true <;> cases aok <;>
+      simp_all [Res.disclosesValue, entryMatches, entryOf, actionOf, nameOf, versionGiven]
+  | put n v =>
+    simp (disch := simp) only [c06_recorded, obsOf, hs, outcome, granted_eq, wellFormed, actionOf, nameOf]
+    have hd := exec_ne_denied kv (.put n v) sok
+    generalize exec kv (.put n v) sok = x at *
+    by_cases hn : n = "" <;> by_cases hg : grantedStd c "put" n = true <;> cases aok <;>
+      simp_all [Res.disclosesValue, entryMatches, entryOf, actionOf, nameOf, versionGiven]
+  | activate n v =>
+    simp (disch := simp) only [c06_recorded, obsOf, hs, outcome, granted_eq, wellFormed, actionOf, nameOf]
+    have hd := exec_ne_denied kv (.activate n v) sok
+    generalize exec kv (.activate n v) sok = x at *
+    by_cases hn : n = "" <;> by_cases hg : grantedStd c "activate" n = true <;> cases aok <;>
+      simp_all [Res.disclosesValue, entryMatches, entryOf, actionOf, nameOf, versionGiven]
+  | deleteVersion n v =>
+    simp (disch := simp) only [c06_recorded, obsOf, hs, outcome, granted_eq, wellFormed, actionOf, nameOf]
+    have hd := exec_ne_denied kv (.deleteVersion n v) sok
+    generalize exec kv (.deleteVersion n v) sok = x at *
+    by_cases hg : grantedStd c "delete" n = true <;> cases aok <;>
+      simp_all [Res.disclosesValue, entryMatches, entryOf, actionOf, nameOf, versionGiven]
+  | delete n =>
+    simp (disch := simp) only [c06_recorded, obsOf, hs, outcome, granted_eq, wellFormed, actionOf, nameOf]
+    have hd := exec_ne_denied kv (.delete n) sok
+    generalize exec kv (.delete n) sok = x at *
+    by_cases hg : grantedStd c "delete" n = true <;> cases aok <;>
+      simp_all [Res.disclosesValue, entryMatches, entryOf, actionOf, nameOf, versionGiven]
 
 end Setec.MonSound
